@@ -1,17 +1,225 @@
 /-
 C03 — configurations execute with structured-program semantics and a fixed lifecycle.
 Property theorems only; helper lemmas are in `Proofs/C03.lean`.
+
+`run / initC / reqC / exec` is the method-by-method model of `Configuration::run`, `Block`, `Loop`,
+`Branch`, `Scope`, `And`/`Or`/`Not` and `State::with_inner_state` (Model/Config.lean); `s` is the
+script (condition values and fault injections), `fuel` the bound on the passes of one loop execution,
+`σ = (registry, trace)` the caller's state. All theorems hold for every tree, script, bound and state.
 -/
 import MahfModel.Proofs.C03
 namespace MahfModel.Props.C03
 open MahfModel.Config
 
-/-- Running a configuration (`Configuration::run` over `Block`/`Loop`/`Branch`/`Scope`, modelled
-method by method) is running the corresponding structured program
-`init-everything-outside-scopes ; check-all-requirements ; execute`, for every tree, script,
-pass bound and caller state — same trace, same result, same registry. -/
+/-- Running a configuration is running the corresponding structured program
+`init-everything-outside-scopes ; check-all-requirements ; execute` over
+`atomic | seq | while | if | { scoped }` — same trace, same result, same registry. -/
 theorem run_is_structured_program (s : Script) (fuel : Nat) (c : Comp) (σ : St) :
     run s fuel c σ = srun s fuel (prog c) σ :=
   run_eq s fuel c σ
+
+/-- Lifecycle. Exactly one of three things happens:
+(a) some `init` fails: the trace is a proper-or-full prefix of the pre-order list of everything
+    outside scopes, and that is all;
+(b) every node outside a scope was initialised exactly once, in pre-order; some `require` fails:
+    only `require` events follow, nothing executes, and the registry is the one `init` left;
+(c) all inits, then all requires (which cannot change the registry), then execution. -/
+theorem lifecycle (s : Script) (fuel : Nat) (c : Comp) (σ : St) :
+    (∃ k ph id, (run s fuel c σ).1.trace = σ.trace ++ (initEvents c).take k ∧
+        (run s fuel c σ).2 = .err ph id) ∨
+    (∃ σ1 k ph id, initC s c σ = (σ1, .ok) ∧ σ1.trace = σ.trace ++ initEvents c ∧
+        (run s fuel c σ).1.trace = σ1.trace ++ (reqEvents c).take k ∧
+        (run s fuel c σ).1.reg = σ1.reg ∧ (run s fuel c σ).2 = .err ph id) ∨
+    (∃ σ1 σ2, initC s c σ = (σ1, .ok) ∧ reqC s c σ1 = (σ2, .ok) ∧ σ2.reg = σ1.reg ∧
+        σ2.trace = σ.trace ++ initEvents c ++ reqEvents c ∧
+        run s fuel c σ = exec s fuel c σ2 ∧ σ2.trace <+: (run s fuel c σ).1.trace) := by
+  obtain ⟨k1, hk1, ht1, hr1⟩ := initC_out s c σ
+  simp only [run]
+  cases hi : initC s c σ with
+  | mk σ1 r1 =>
+    rw [hi] at ht1 hr1; simp only at ht1 hr1
+    rcases hr1 with ⟨rok, hk⟩ | ⟨ph, id, he⟩
+    · subst rok; subst hk
+      simp only [andThen, List.take_length] at ht1 ⊢
+      obtain ⟨k2, hk2, ht2, hr2⟩ := reqC_out s c σ1
+      have hreg := reqC_reg s c σ1
+      cases hq : reqC s c σ1 with
+      | mk σ2 r2 =>
+        rw [hq] at ht2 hr2 hreg; simp only at ht2 hr2 hreg
+        rcases hr2 with ⟨rok, hk⟩ | ⟨ph, id, he⟩
+        · subst rok; subst hk
+          right; right
+          simp only [List.take_length] at ht2
+          refine ⟨σ1, σ2, rfl, hq, hreg, by rw [ht2, ht1], rfl, ?_⟩
+          have := srun_trace s fuel (execProg c) σ2
+          rw [← exec_eq] at this
+          exact trace_prefix_of_suffix this
+        · subst he
+          right; left
+          exact ⟨σ1, k2, ph, id, rfl, ht1, ht2, hreg, rfl⟩
+    · subst he
+      left
+      exact ⟨k1, ph, id, ht1, rfl⟩
+
+/-- The `init` pass only produces `init`/`cinit` events and the `require` pass only
+`req`/`creq` events — so in cases (a) and (b) of `lifecycle` no `exec` event exists. -/
+theorem init_and_require_events (c : Comp) (e : Ev) :
+    (e ∈ initEvents c → e.1 = .init ∨ e.1 = .cinit) ∧ (e ∈ reqEvents c → e.1 = .req ∨ e.1 = .creq) :=
+  ⟨phaseEvents_phase .init .cinit c e, phaseEvents_phase .req .creq c e⟩
+
+/-- Block order, in each of the three phases: a block split anywhere runs its first part
+completely and in order, and its second part only if the first part succeeded. -/
+theorem block_order (s : Script) (fuel : Nat) (cs ds : Comps) (σ : St) :
+    initC s (.block (cs.append ds)) σ = andThen (initC s (.block cs) σ) (initC s (.block ds)) ∧
+    reqC s (.block (cs.append ds)) σ = andThen (reqC s (.block cs) σ) (reqC s (.block ds)) ∧
+    exec s fuel (.block (cs.append ds)) σ = andThen (exec s fuel (.block cs) σ) (exec s fuel (.block ds)) := by
+  refine ⟨?_, ?_, ?_⟩
+  · simp only [initC]; rw [initCs_append]
+  · simp only [reqC]; rw [reqCs_append]
+  · simp only [exec]; rw [execs_append]
+
+/-- The first error stops everything after it and is returned: compared with the same run without
+fault injections, the run with faults is either identical or stops with an error at a point the
+fault-free run passes through (its trace is a prefix); and whenever the result is an error, the
+failing event is the last event of the trace. -/
+theorem first_error_stops (s : Script) (fuel : Nat) (c : Comp) (σ : St) :
+    (run s fuel c σ).1.trace <+: (run s.noFaults fuel c σ).1.trace ∧
+    (run s fuel c σ = run s.noFaults fuel c σ ∨ ∃ ph id, (run s fuel c σ).2 = .err ph id) ∧
+    (∀ ph id, (run s fuel c σ).2 = .err ph id → (run s fuel c σ).1.trace.getLast? = some (ph, id)) := by
+  rw [run_eq, run_eq]
+  refine ⟨?_, ?_, ?_⟩
+  · rcases srun_sim s fuel (prog c) σ with h | ⟨_, h⟩
+    · rw [h]; exact List.prefix_refl _
+    · exact trace_prefix_of_suffix h
+  · rcases srun_sim s fuel (prog c) σ with h | ⟨h, _⟩
+    · exact Or.inl h
+    · exact Or.inr h
+  · intro ph id h
+    have := srun_errLast s fuel (prog c) σ ph id h
+    simpa [St.trace, List.getLast?_reverse] using this
+
+/-- Loop: a loop execution ends normally iff its condition is re-initialised (once, on entry) and
+then, for some `n` below the bound, `n` times in a row the condition is evaluated to `true`, the
+body completes and the counter is incremented, after which the condition is evaluated once more
+and is `false` — `n` passes, `n + 1` tests. -/
+theorem loop_passes (s : Script) (fuel : Nat) (c : Cond) (b : Comp) (σ σ' : St) :
+    exec s fuel (.loop c b) σ = (σ', .ok) ↔
+    ∃ σ1 n, condPhase s .cinit c σ = (σ1, .ok) ∧ n < fuel ∧
+      Passes (condEval s c) (fun x => andThen (exec s fuel b x) bump) n σ1 σ' :=
+  exec_loop_ok_iff s fuel c b σ σ'
+
+/-- Counter: if the body contains no further loop and none of its leaves touches `Iterations`,
+the counter visible after the loop is the counter visible before plus the number of completed passes. -/
+theorem loop_counter (s : Script) (fuel : Nat) (c : Cond) (b : Comp)
+    (hb : b.sat Act.offCounter (fun _ => true) false = true) (σ σ' : St)
+    (h : exec s fuel (.loop c b) σ = (σ', .ok)) :
+    ∃ n, n < fuel ∧ σ'.reg.get? 0 = (σ.reg.get? 0).map (· + n) := by
+  obtain ⟨σ1, n, h1, hn, hp⟩ := (exec_loop_ok_iff s fuel c b σ σ').mp h
+  refine ⟨n, hn, ?_⟩
+  have hreg : σ1.reg = σ.reg := by have := condPhase_reg s .cinit c σ; rw [h1] at this; exact this
+  rw [← hreg]
+  refine passes_counter (fun x => condEval_reg s c x) (fun x y hxy => ?_) hp
+  have := exec_counter_same s fuel b hb x
+  rw [hxy] at this; exact this
+
+/-- Pass count: for a loop over a single scripted condition that occurs nowhere in its body, the
+number of passes is read off the script — the values consumed are `true` once per pass and `false`
+for the final test; the condition is evaluated exactly `passes + 1` times. -/
+theorem loop_pass_count (s : Script) (fuel : Nat) (cid : Nat) (b : Comp)
+    (hb : b.sat (fun _ => true) (Cond.avoids cid) true = true) (σ σ' : St)
+    (h : exec s fuel (.loop (.leaf cid) b) σ = (σ', .ok)) :
+    ∃ n, n < fuel ∧
+      (∀ i, i < n → s.value cid (σ.tr.count (Phase.ceval, cid) + i) = true) ∧
+      s.value cid (σ.tr.count (Phase.ceval, cid) + n) = false ∧
+      σ'.tr.count (Phase.ceval, cid) = σ.tr.count (Phase.ceval, cid) + n + 1 := by
+  obtain ⟨σ1, n, h1, hn, hp⟩ := (exec_loop_ok_iff s fuel (.leaf cid) b σ σ').mp h
+  refine ⟨n, hn, ?_⟩
+  have htr : σ1.tr.count (Phase.ceval, cid) = σ.tr.count (Phase.ceval, cid) := by
+    simp only [condPhase] at h1
+    rcases step_cases s (Phase.cinit, cid) some σ with h' | ⟨r, _, h'⟩ <;> rw [h'] at h1
+    · injection h1 with _ h1; cases h1
+    · injection h1 with h1 _; subst h1
+      exact List.count_cons_of_ne (by intro hh; injection hh with hh _; cases hh)
+  rw [← htr]
+  simp only [condEval] at hp
+  refine passes_script s cid (fun x y hxy => ?_) hp
+  obtain ⟨m, hm, hbump⟩ := andThen_ok hxy
+  have := exec_count_same s fuel cid b hb x
+  rw [hm] at this
+  rw [(bump_ok hbump).2]; exact this
+
+/-- Branch: the condition is evaluated once; `true` runs the if-body, `false` runs the else-body
+if there is one and otherwise nothing; an evaluation error is returned and nothing runs. -/
+theorem branch_sem (s : Script) (fuel : Nat) (c : Cond) (t e : Comp) (he : Bool) (σ : St) :
+    (∀ σ1, condEval s c σ = (σ1, .val true) → exec s fuel (.branch c t e he) σ = exec s fuel t σ1) ∧
+    (∀ σ1, condEval s c σ = (σ1, .val false) → he = true →
+        exec s fuel (.branch c t e he) σ = exec s fuel e σ1) ∧
+    (∀ σ1, condEval s c σ = (σ1, .val false) → he = false →
+        exec s fuel (.branch c t e he) σ = (σ1, .ok)) ∧
+    (∀ σ1 ph id, condEval s c σ = (σ1, .err ph id) →
+        exec s fuel (.branch c t e he) σ = (σ1, .err ph id)) := by
+  refine ⟨?_, ?_, ?_, ?_⟩ <;> intros <;> simp_all [exec]
+
+/-- Scope: every execution of a scope node runs the complete lifecycle (`init`, `require`,
+`execute`) of its body against a fresh, empty child scope, and closes that scope afterwards. -/
+theorem scope_fresh_each_entry (s : Script) (fuel : Nat) (b : Comp) (σ : St) :
+    exec s fuel (.scope b) σ = (pop (run s fuel b (push σ)).1, (run s fuel b (push σ)).2) ∧
+    (push σ).reg = [] :: σ.reg ∧ (push σ).tr = σ.tr := by
+  refine ⟨?_, rfl, rfl⟩
+  rw [exec_scope, run_eq_scopeBody]
+
+/-- Scope discipline: whatever happens (success, error in any phase at any depth, missing counter,
+exhausted bound) the scope depth after the run is the scope depth before it. -/
+theorem scope_discipline (s : Script) (fuel : Nat) (c : Comp) (σ : St) :
+    (run s fuel c σ).1.reg.length = σ.reg.length ∧ (exec s fuel c σ).1.reg.length = σ.reg.length := by
+  rw [run_eq, exec_eq]
+  exact ⟨srun_depth s fuel _ σ, srun_depth s fuel _ σ⟩
+
+/-- Nothing else is removed from the caller's state: a state that is present before the run and
+that no leaf `remove`s is present afterwards — also when the run ends in an error. -/
+theorem caller_state_kept (s : Script) (fuel : Nat) (c : Comp) (k : Nat)
+    (hc : c.sat (Act.keeps k) (fun _ => true) true = true) (σ : St)
+    (h : (σ.reg.get? k).isSome = true) : ((run s fuel c σ).1.reg.get? k).isSome = true :=
+  run_frame s fuel (stable_present k) c hc σ h
+
+/-- State created inside a scope is gone afterwards: a state type absent from the caller's state
+before a scope node is absent after it, whatever the body inserts and however it ends. -/
+theorem scope_locals_gone (s : Script) (fuel : Nat) (b : Comp) (k : Nat) (σ : St)
+    (h : σ.reg.get? k = none) : (exec s fuel (.scope b) σ).1.reg.get? k = none :=
+  scope_frame s fuel (stable_absent k) b (Comp.sat_true b) σ h
+
+/-- Outer state that a scope shadows is restored: inserting `k` inside the scope (any number of
+times, at any depth) never disturbs the caller's `k`; as long as no leaf of the body `set`s or
+`remove`s `k`, its value after the scope is its value before. -/
+theorem shadow_restored (s : Script) (fuel : Nat) (b : Comp) (k v : Nat) (hk : k ≠ 0)
+    (hb : b.sat (Act.spares k) (fun _ => true) true = true) (σ : St)
+    (h : σ.reg.get? k = some v) : (exec s fuel (.scope b) σ).1.reg.get? k = some v :=
+  scope_frame s fuel (stable_value k v hk) b hb σ h
+
+/-- Changes to non-shadowed outer state persist: a scope whose body inserts nothing (no `insert`
+action and no loop, whose `init` inserts the counter) is transparent — same trace, same result and
+the same final registry as running the body's lifecycle directly in the caller's scope. -/
+theorem outer_writes_persist (s : Script) (fuel : Nat) (b : Comp)
+    (hb : b.sat Act.noIns (fun _ => true) false = true) (σ : St) :
+    exec s fuel (.scope b) σ = run s fuel b σ :=
+  scope_transparent s fuel b hb σ
+
+/-! Non-vacuity: concrete trees and states satisfying the hypotheses, and the conclusions
+evaluated on them. -/
+
+example : exBody.sat (Act.keeps 1) (fun _ => true) true = true := by decide
+example : exBody.sat (Act.spares 1) (fun _ => true) true = true := by decide
+example : (exState.reg.get? 1).isSome = true := by decide
+example : (exec exScript 5 (.scope exBody) exState).1.reg = [[(2, 9), (1, 100)]] := by decide
+example : (exec exScript 5 (.scope exBody) exState).1.reg.get? 0 = none := by decide
+example : (Comp.leaf 2 [.set .exec 2 9]).sat Act.offCounter (fun _ => true) false = true := by decide
+example : (Comp.leaf 2 [.set .exec 2 9]).sat (fun _ => true) (Cond.avoids 101) true = true := by decide
+example : (exec exScript 5 (.loop (.leaf 101) (.leaf 2 [.set .exec 2 9])) { exState with reg := [[(0, 0)]] }).2 = .ok := by
+  decide
+example : (exec exScript 5 (.loop (.leaf 101) (.leaf 2 [.set .exec 2 9])) { exState with reg := [[(0, 0)]] }).1.reg.get? 0
+    = some 2 := by decide
+example : (Comp.leaf 2 [.set .exec 2 9]).sat Act.noIns (fun _ => true) false = true := by decide
+example : (run { exScript with fails := [(.exec, 2, 1)] } 5 (.scope exBody) exState).2 = .err .exec 2 := by decide
+example : (run { exScript with fails := [(.exec, 2, 1)] } 5 (.scope exBody) exState).1.reg.length = 1 := by decide
 
 end MahfModel.Props.C03
